@@ -11,6 +11,7 @@ DEC_ROOTS = (r"^rbx_binary::from_reader$|^rbx_binary::deserializer::Deserializer
 SER_ROOTS = r"^rbx_binary::serializer::Serializer::<'db>::serialize$|^rbx_binary::to_writer$|^rbx_xml::serializer::encode_internal$|^rbx_xml::to_writer$|^rbx_xml::to_writer_default$|^rbx_types::attributes::Attributes::to_writer$"
 
 DS = "rbx_binary::deserializer::state::DeserializerState::<'db, R>::"
+BS_CORE = "rbx_binary::core::RbxReadExt::"
 XR = "rbx_xml::deserializer_core::XmlEventReader::<R>::"
 
 # (function, kind, fingerprint) -> discharging invariant.  A `*` fingerprint suffix matches by prefix.
@@ -376,6 +377,74 @@ def taint_of(fn, e, env, depth=6):
 
 
 OLDKEYS = {}
+
+
+OVF_DISCHARGED = {
+    # (function, operation, expression) -> why the checked arithmetic cannot overflow on any input
+    (BS_CORE + "read_interleaved_bytes", "Mul", "*"): "SIZE: `len * N` is the byte size of `output` (a slice that exists in memory), N = size_of the element",
+    (BS_CORE + "read_interleaved_bytes", "Add", "*"): "SIZE: `i + len * j` with i < len, j < N indexes the buffer of `len * N` bytes allocated above",
+    (DS + "new", "Add", "*"): "WIDEN: 1 + (u32 as usize) — needs a 64-bit usize (recorded as an assumption)",
+    (DS + "decode_prop_chunk", "Mul", "*"): "WIDEN: (u32 as usize) * 4 — needs a 64-bit usize (recorded as an assumption); the allocation it sizes is a C13.alloc finding of its own",
+    ("rbx_xml::deserializer_core::XmlEventReader::<R>::eat_unknown_tag", "Add", "*"): "COUNT: one increment per start tag of the input; bounded by the input length",
+    ("rbx_xml::deserializer_core::XmlEventReader::<R>::eat_unknown_tag", "Sub", "*"): "BALANCE: entered on a peeked StartElement (depth 1 after the first event); xml-rs delivers balanced events, and the loop leaves when depth returns to 0",
+    ("rbx_xml::error::DecodeError::new_from_reader", "Add", "*"): "COUNT: row + 1 of an xml-rs text position; bounded by the input length",
+}
+
+
+def rule_ovf(c, prog, g, dreach):
+    R = "C13.ovf"
+    c.rule(R, "every overflow-checked arithmetic operation (MIR `Assert(Overflow(..))`: + - * << >> unary -) in code reachable from a decoder entry point is enumerated; it is discharged by computation (constant shift amount below the width; negation of a value masked to a non-negative constant; constant operands) or by a confirmed table entry with the bound — otherwise a wire value can make a debug / overflow-checked build panic")
+    n = 0
+    for fn in lib_named(prog, dreach):
+        if not fn.mir:
+            continue
+        defs = {}
+        for bb in fn.mir["blocks"]:
+            for st in bb["stmts"]:
+                if st.get("k") == "assign" and st["lhs"].get("k") == "place" and not st["lhs"].get("proj"):
+                    defs.setdefault(st["lhs"]["l"], []).append(st)
+        for bb in fn.mir["blocks"]:
+            t = bb["term"]
+            if t["k"] != "assert" or not str(t.get("msg", "")).startswith("overflow:"):
+                continue
+            op = t["msg"].split(":", 1)[1]
+            n += 1
+            sp = t.get("sp", "")
+            loc = ":".join(sp.split(":")[:2])
+            inst = f"{fn.path}|overflow|{op}@{loc.rsplit(':', 1)[-1] if False else op}"
+            # statements of the same source span
+            same = [st for b2 in fn.mir["blocks"] for st in b2["stmts"] if st.get("sp") == sp]
+            why = None
+            if op in ("Shr", "Shl"):
+                sh = [st for st in same if st.get("rk") in ("bin:Shr", "bin:Shl")]
+                if sh and sh[0]["ops"][1].get("k") == "const":
+                    m = re.match(r"^(\d+)_", str(sh[0]["ops"][1].get("v")))
+                    wty = fn.mir["locals"][sh[0]["ops"][0]["l"]] if sh[0]["ops"][0].get("k") == "place" else sh[0]["ops"][0].get("ty", "")
+                    wm = re.search(r"(\d+)$", wty or "")
+                    width = int(wm.group(1)) if wm else 64
+                    if m and int(m.group(1)) < width:
+                        why = f"CONST-SHIFT: by {m.group(1)} < {width}"
+            elif op == "Neg":
+                cond = t["cond"]["l"]
+                eq = [st for st in defs.get(cond, []) if st.get("rk") == "bin:Eq"]
+                if eq and eq[0]["ops"][0].get("k") == "place":
+                    src = [st for st in defs.get(eq[0]["ops"][0]["l"], []) if st.get("rk") == "bin:BitAnd" and st["ops"][1].get("k") == "const"]
+                    if src:
+                        m = re.match(r"^(\d+)_", str(src[0]["ops"][1].get("v")))
+                        if m:
+                            why = f"MASKED: negation of a value masked with {m.group(1)} (never MIN)"
+            else:
+                arith = [st for st in same if str(st.get("rk", "")).endswith("WithOverflow")]
+                if arith and all(o.get("k") == "const" for o in arith[0]["ops"]):
+                    why = "CONST: both operands are constants"
+            if why is None:
+                why = OVF_DISCHARGED.get((fn.path, op, "*"))
+            inst = f"{fn.path}|overflow:{op}"
+            if why:
+                c.ok(R, inst)
+            else:
+                c.violation(R, f"{fn.path}|overflow|{op}", f"{fn.path}: checked `{op}` at {loc} operates on values read from the input and nothing bounds them: a crafted file makes an overflow-checked (debug) build panic with `attempt to {op.lower()} with overflow`; release builds wrap silently", sp, instance=inst)
+    c.floor(R, n, 5, "overflow-checked operations in decoder-reachable code")
 
 
 def rule_alloc(c, prog, g, dreach):
@@ -825,6 +894,7 @@ def run(c, prog):
     droots, dreach, sroots, sreach = reach_sets(prog, g)
     rule_panic(c, prog, g, dreach)
     rule_alloc(c, prog, g, dreach)
+    rule_ovf(c, prog, g, dreach)
     rule_rec(c, prog, g, dreach)
     rule_prog(c, prog, g, dreach)
     rule_trunc(c, prog)
